@@ -682,7 +682,10 @@ func (bs *bodyState) checkSecrets(k *checker, i int, cfg *config.Config, plan *s
 				bs.res.Count("secrets_masked", 1)
 			}
 		case "omitted":
-			if present && v != nil && v != "" {
+			if present && v == "<secret>" {
+				// the holder inherits the secret from `global` (or from another field): masked
+				bs.res.Count("secrets_masked_inherited", 1)
+			} else if present && v != nil && v != "" {
 				k.bad(i, "drift_secret_printed", fmt.Sprintf("secret %s (%s, %s): the specification expects the field to be absent from the textual form", ps.sec.Site, ps.sec.Type, ps.sec.Shape), "omitted", v, sc)
 			} else {
 				bs.res.Count("secrets_omitted", 1)
